@@ -164,7 +164,8 @@ def build_robust(mods, jobs):
     for rnd in range(6):
         if not pending:
             break
-        specs = [core.BuildSpec(mods[i]["name"], module_source(mods[i])[0], kind="py", options={"language_level": 3})
+        specs = [core.BuildSpec(mods[i]["name"], module_source(mods[i])[0], kind="py",
+                                options={"language_level": 3, "global_options": {"error_on_unknown_names": False}})
                  for i in pending]
         bs = core.build_many(specs, workdir=core.subdir("c01build%d" % rnd), jobs=jobs)
         nxt = []
